@@ -96,8 +96,10 @@ Definition spy_value (d : dict) : val :=
 Inductive ptree :=
 | PLeaf (pname : nat) (mdefault : val)
 | PSpy (sdefaults : dict)
-| PSol (children : list (rmap * ptree)) (sdefaults : dict) (adds : list addp) (sdefaults_after : dict).
-(* set_param calls before / after the add_param definitions *)
+| PSol (children : list (rmap * ptree)) (sdefaults : dict) (adds : list addp) (sdefaults_after : dict)
+       (sreplaced : option dict).
+(* set_param calls before / after the add_param definitions; set_default_params (replacing the whole
+   dictionary) after everything else *)
 
 Section Deliver.
 Variable fn : nat -> dict -> val.
@@ -107,7 +109,8 @@ Fixpoint node_defaults (t : ptree) : dict :=
   match t with
   | PLeaf n d => [(n, d)]
   | PSpy sd => sd
-  | PSol children sdef adds sdef2 =>
+  | PSol children sdef adds sdef2 srep =>
+      match srep with Some d => d | None =>
       let base := (fix go (l : list (rmap * ptree)) (acc : dict) : dict :=
                      match l with
                      | [] => acc
@@ -115,6 +118,7 @@ Fixpoint node_defaults (t : ptree) : dict :=
                      end) children [] in
       let base1 := pupdate base sdef in
       pupdate (fold_left (fun acc a => pupdate (ppop (ap_name a) acc) (ap_args a)) adds base1) sdef2
+      end
   end.
 
 (* the values received by the leaves, depth first *)
@@ -122,7 +126,7 @@ Fixpoint deliver (t : ptree) (incoming : dict) : list (option val) :=
   match t with
   | PLeaf n d => [pget n (model_update [(n, d)] incoming)]
   | PSpy sd => [Some (spy_value (model_update sd incoming))]
-  | PSol children sdef adds sdef2 =>
+  | PSol children sdef adds sdef2 _ =>
       let pd := solver_update fn (node_defaults t) adds incoming in
       (fix go (l : list (rmap * ptree)) : list (option val) :=
          match l with
@@ -147,7 +151,7 @@ Fixpoint subtree (t : ptree) (path : list nat) : option ptree :=
   match path with
   | [] => Some t
   | i :: r => match t with
-              | PSol children _ _ _ => match nth_error children i with
+              | PSol children _ _ _ _ => match nth_error children i with
                                        | Some (_, c) => subtree c r | None => None end
               | _ => None
               end
